@@ -240,7 +240,7 @@ func (g *goBuilder) build(term string, t types.Type, depth int) string {
 			}
 			return fmt.Sprintf("%s(%d)", g.typeStr(t), n)
 		case tt.Info()&types.IsString != 0:
-			ln, ok := g.intv("(str.len " + term + ")")
+			ln, ok := g.intv("(s.len " + term + ")")
 			if !ok {
 				return `""`
 			}
@@ -251,7 +251,7 @@ func (g *goBuilder) build(term string, t types.Type, depth int) string {
 			bs := make([]byte, ln)
 			all := true
 			for i := int64(0); i < ln; i++ {
-				b, ok := g.intv(fmt.Sprintf("(str.at %s %d)", term, i))
+				b, ok := g.intv(fmt.Sprintf("(s.at %s %d)", term, i))
 				if !ok {
 					all = false
 					continue
